@@ -50,7 +50,10 @@ LawChecks(bk, s, gv, ts, o, under) ==
   /\ ((o.disp = disp /\ o.fmt = o.disp /\ o.np = np /\ o.npw = o.np)
         \/ R("format", [disp |-> o.disp, fmt |-> o.fmt, np |-> o.np, npw |-> o.npw, want |-> disp, want_np |-> np]))
   /\ (o.len = slen \/ R("strlen", [got |-> o.len, want |-> slen]))
-  /\ ((o.re = <<1,1,1>> /\ o.rd = <<1,1,1,1>> /\ o.cl = <<1,1,1>>)
+  \* the display form of a signature of several types is two bytes longer and one struct deeper than
+  \* the string: at the limits it is not a valid signature itself, and then need not parse back
+  /\ LET dispValid == IF Len(ts) >= 2 THEN ParseSig(disp, gv).ok ELSE TRUE IN
+     ((o.re = <<1,1,1>> /\ (dispValid => o.rd = <<1,1,1,1>>) /\ o.cl = <<1,1,1>>)
         \/ R("eqhash", [reparsed |-> o.re, display_reparsed |-> o.rd, clone |-> o.cl]))
   /\ \A key \in {"st", "dy"} :
        Has(o, key) =>
